@@ -31,6 +31,32 @@ CHECKS = {
         note="Bounds n<=8 (12), chunksize<=9 (13), n_pool<=4 (5); Pool.map order preservation assumed; "
              "worker scheduling of real pools exercised, not enumerated.",
     ),
+    "C17": dict(
+        category="model_checking",
+        technique="TLA+ spec Threshold.tla (clamp of determine_log_likelihood_threshold as integer function, entropy "
+                  "cut as exact integer arithmetic) checked by TLC, theorems also discharged for unbounded integers by "
+                  "Apalache; every exported state replayed as a call of the real method",
+        text="TLC enumerates every (n0, size, min_samples, min_remove, max_samples, nlive, draw_constant) up to the "
+             "bound and proves the C17 clauses in the domain where they are satisfiable; each state is one call of the "
+             "real ImportanceNestedSampler.determine_log_likelihood_threshold with the cut index scripted; the two cut "
+             "functions and weighted_quantile are exercised on TLC-enumerated weight shapes against an mpmath oracle.",
+        design_ref="DESIGN.md 4 C17",
+        note="'the method's own choice' is read after the code's n0=0 -> 1 rule; the training-set floor in real runs is "
+             "checked by the INS trace validation (C03 corpus); quantile cut judged against a Harrell-Davis oracle.",
+    ),
+    "C18": dict(
+        category="model_checking",
+        technique="TLA+ spec LivePoints.tla (global registry of extra fields + conversions on abstract values) checked "
+                  "by TLC; every edge replayed on the real registry and conversion functions; recorded random "
+                  "histories validated by TLC (TraceLivePoints.tla)",
+        text="TLC checks names/order/defaults/round-trip theorems for all add/reset histories within the bound; each "
+             "edge is replayed on the real global registry and after each step every conversion function is called on "
+             "instantiated names/values/shapes and compared field by field; zero-copy is checked with shares_memory and "
+             "write-through.",
+        design_ref="DESIGN.md 4 C18",
+        note="Bounds: 3 extra names, <=2 names per add; names 1..20 and shapes up to 64 points sampled from the seed; "
+             "where the statement is silent (re-adding a name with another default) deviations are MODEL-MISMATCH only.",
+    ),
 }
 
 NOT_YET = {k: 'check not built yet (work in progress; see DESIGN.md 8 for the order of work)' for k in ['C01', 'C02', 'C03', 'C05', 'C09', 'C10', 'C11', 'C12', 'C13', 'C14', 'C15', 'C16', 'C17', 'C18', 'C19', 'C20']}
